@@ -8,6 +8,17 @@ from .fuse import rel, rand_groups
 def family(rng, sym):
     """A base array and near-identical variants (each differs in ONE attribute)."""
     base = gen.rand_array(rng, sym, 3, rng.choice(["abelian", "fermionic"]), sparse=0.0, maxc=2, maxd=2)
+    if sym in ("U1", "U1U1") and rng.random() < 0.7:
+        # make sure the label -1 occurs somewhere
+        k = rng.randrange(3)
+        neg = [-1, 0] if sym == "U1" else [-1, 0]
+        have = {tuple(e["c"]) for e in base["ix"][k]["cm"]}
+        if tuple(neg) not in have:
+            base["ix"][k]["cm"][0]["c"] = neg
+            base["ix"][k]["cm"].sort(key=lambda e: tuple(e["c"]))
+            if len({tuple(e["c"]) for e in base["ix"][k]["cm"]}) < len(base["ix"][k]["cm"]):
+                base["ix"][k]["cm"] = base["ix"][k]["cm"][:1]
+            base["charge"] = list(rng.choice(gen.possible_charges(sym, base["ix"])))
     base["drop"] = []
     fam = {"v0": base}
     # one dualness flipped (charge re-chosen so that sectors exist)
@@ -47,6 +58,23 @@ def family(rng, sym):
             ch = gen.possible_charges(other, v["ix"])
             v["charge"] = list(rng.choice(ch))
             fam["v5"] = v
+    # the label -1 replaced by -2 (CPython: hash(-1) == hash(-2))
+    if sym in ("U1", "U1U1"):
+        v = copy.deepcopy(base)
+        hit = False
+        for ix in v["ix"]:
+            have = {tuple(e["c"]) for e in ix["cm"]}
+            for e in ix["cm"]:
+                c = tuple(e["c"])
+                c2 = tuple(-2 if q == -1 else q for q in c)
+                if c2 != c and c2 not in have:
+                    e["c"] = list(c2)
+                    hit = True
+            ix["cm"].sort(key=lambda e: tuple(e["c"]))
+        if hit:
+            ch = gen.possible_charges(sym, v["ix"])
+            v["charge"] = list(rng.choice(ch))
+            fam["v6"] = v
     for d in fam.values():
         d["fill"] = {"start": 1, "step": 1, "alt": True}
     return fam
@@ -79,11 +107,15 @@ def programs(seed, n, syms=gen.SYMS, tids=None):
             what = rng.random()
             if what < 0.55:
                 steps.append({"op": "fuse", "in": [nm], "out": [f"h{k}"], "args": {"groups": groups}})
+                steps.append({"op": "rel", "in": [], "out": [], "args": {"how": "all_or_none", "names": [f"h{k}", f"ref_f_{nm}"],
+                                                                         "clause": "C15.history_independent.fuse.outcome"}})
                 steps.append(rel("obs", "C15.history_independent.fuse", f"h{k}", f"ref_f_{nm}"))
             elif what < 0.9:
                 steps.append({"op": "tensordot", "in": [nm, f"c_{nm}"], "out": [f"h{k}"],
                               "args": {"axes": [[0, 1], [0, 1]], "mode": "fused", "preserve_array": True},
                               "entry": "symmray"})
+                steps.append({"op": "rel", "in": [], "out": [], "args": {"how": "all_or_none", "names": [f"h{k}", f"ref_t_{nm}"],
+                                                                         "clause": "C15.history_independent.tensordot.outcome"}})
                 steps.append(rel("obs", "C15.history_independent.tensordot", f"h{k}", f"ref_t_{nm}"))
             else:
                 steps.append({"op": "fuse", "in": ["v0f"], "out": [f"h{k}"], "args": {"groups": [[0, 1]]}})
@@ -146,6 +178,15 @@ def derived_programs(seed, n, syms=gen.SYMS, tids=None):
         both("fuse", ["x"], {"groups": [[1, 0]]}, "h2")
         both("fuse", ["h1"], {"groups": [[0, 1]]}, "hh1")
         both("fuse", ["h2"], {"groups": [[0, 1]]}, "hh2")
+        # contraction over the remaining leg: the pre-fused free leg must stay what it was, in every mode
+        for h in ("1", "2"):
+            both("tensordot", [f"h{h}", "p"], {"axes": [[1], [0]], "mode": "fused", "preserve_array": True}, f"tf{h}")
+            both("tensordot", [f"h{h}", "p"], {"axes": [[1], [0]], "mode": "blockwise", "preserve_array": True}, f"tb{h}")
+            steps.append(rel("array_equal_den", "C06.strategies_agree.prefused_history", f"tf{h}", f"tb{h}"))
+            steps.append({"op": "unfuse", "in": [f"tf{h}"], "out": [f"tfu{h}"], "args": {"axis": 0}})
+        steps.append({"op": "tensordot", "in": ["x", "p"], "out": ["txp"], "args": {"axes": [[2], [0]], "mode": "blockwise", "preserve_array": True},
+                      "entry": "symmray"})
+        steps.append(rel("same", "C06.fuse_free_commutes.history", "tfu1", "txp"))
         for h, perm in (("1", [0, 1, 2]), ("2", [1, 0, 2])):
             steps.append({"op": "unfuse", "in": [f"hh{h}"], "out": [f"u{h}a"], "args": {"axis": 0}})
             steps.append({"op": "unfuse", "in": [f"u{h}a"], "out": [f"u{h}b"], "args": {"axis": 0}})
@@ -164,5 +205,7 @@ def derived_programs(seed, n, syms=gen.SYMS, tids=None):
         c = xs0["ix"][k]["cm"][rng.randrange(len(xs0["ix"][k]["cm"]))]["c"]
         secs = gen.D.valid_sectors(sym, xs0["ix"], tuple(xs0["charge"]))
         xs0["drop"] = sorted(set(xs0["drop"]) | {j for j, s in enumerate(secs) if list(s[k]) == list(c)})
-        progs.append({"tid": tids(), "inputs": {"x": x, "xs0": xs0}, "steps": steps})
+        pix = [gen.conj_index(x["ix"][2]), gen.rand_index(rng, sym, maxc=2)]
+        pp = gen.rand_array(rng, sym, 2, kind, ixs=pix, sparse=0.0, oddpos=9, start=31, cls=x["cls"])
+        progs.append({"tid": tids(), "inputs": {"x": x, "xs0": xs0, "p": pp}, "steps": steps})
     return progs
